@@ -1247,8 +1247,7 @@ def _m_sig(b, blocks, do_swap):
             if rv["k"]=="bin": key.append(rv["op"])
             names=[]
             for pl in rvalue_places(rv)+[s["p"]]:
-                n=b.local_name(pl["l"])
-                if n: names.append(_m_canon(_m_swap(n)) if do_swap else _m_canon(n))
+                # local variable names are not part of the signature (renaming a local is not a change)
                 for e in place_proj(pl):
                     if e[0]=="f" and e[2]: names.append(_m_canon(_m_swap(e[2])) if do_swap else _m_canon(e[2]))
                     if e[0]=="dc": names.append(_m_swap(e[1]) if do_swap else e[1])
